@@ -538,6 +538,10 @@ def run(ctx):
             % (stats["compared"] - n0, stats["corr_diff"], stats["history_diff"], stats["oracle_diff"]))
     for k, v in stats.items():
         ctx.count(k, v)
+    if not ctx.cov["samples"]:
+        ctx.sample({"distribution": {k: stats[k] for k in ("path_own", "path_composed", "path_unknown")},
+                    "example": "synthetic x86/AArch64 models with typed load/store rows; each instruction text analysed twice in a row, "
+                               "after a decoy and once more (see harness/props/c08.py:synthetic)"})
     ctx.cov["evaluations"] = stats["observations"]
     ctx.cov["distinct_nontrivial"] = stats["path_composed"]
     ctx.cov["traces_validated_against_impl"] = stats["compared"]
